@@ -135,3 +135,6 @@ func TestC14(t *testing.T) { RunProp(t, "C14", "clienthandshake", genClientHSCas
 func TestC15(t *testing.T) { RunProp(t, "C15", "compression-agreement", genCompCase, checkC15) }
 
 func TestC17(t *testing.T) { RunProp(t, "C17", "boundary", genBoundaryCase, checkC17) }
+
+func TestC18Cells(t *testing.T) { RunEnum(t, "C18", "matrix", enumDialCells, checkC18) }
+func TestC18Rand(t *testing.T)  { RunProp(t, "C18", "hosts-and-replies", genDialCell, checkC18) }
